@@ -13,17 +13,19 @@ ASSUMPTIONS = ["unforgeability of HMAC-SHA1 itself is not provable here; the the
                "plus, under an explicit collision-freeness premise, 'accepted => genuine'"]
 
 
-def scripts(rng, tier):
+def scripts(rng, tier, n=None):
     out = []
-    n = 12 if tier == "quick" else 120
+    n = n or (12 if tier == "quick" else 120)
     for k in range(n):
         ssrc = rng.randrange(2, 1 << 32)
         p = rand_policy(rng, ssrc=ssrc, valid=True, allow_cryptex=(k % 3 == 0))
         # authenticating policy
         tag = rng.choice([4, 10, 10, 16])
-        p.rtp = p.rtp[:2] + (HMAC, 20, tag, p.rtp[5] | 2)
-        # SRTCP is always authenticated, whatever sec_serv says: the service flags of the two directions are independent
-        p.rtcp = p.rtcp[:2] + (HMAC, 20, rng.choice([4, 10, 16]), rng.choice([0, 1, 2, 3, 3]))
+        aead = p.rtp[0] in (GCM128, GCM256)      # AES-GCM authenticates every packet (tag 16 or 8), whatever sec_serv says
+        if not aead:
+            p.rtp = p.rtp[:2] + (HMAC, 20, tag, p.rtp[5] | 2)
+            # SRTCP is always authenticated, whatever sec_serv says: the service flags of the two directions are independent
+            p.rtcp = p.rtcp[:2] + (HMAC, 20, rng.choice([4, 10, 16]), rng.choice([0, 1, 2, 3, 3]))
         # a third of the scripts: the receiver is keyed with a wildcard policy and has already accepted one genuine packet
         # of the SSRC, so that the altered packets meet the per-SSRC CLONE of the template, not the template itself
         wild = (k % 3 == 1)
@@ -138,4 +140,5 @@ def monitor(script, c):
 
 def families(tier, seed):
     rng = random.Random(seed * 1000 + 4)
-    return [Family("mutations", scripts(rng, tier), monitor=monitor)]
+    return [Family("mutations", scripts(rng, tier), monitor=monitor),
+            Family("gcm-mutations", with_aead(scripts, random.Random(seed * 1000 + 104), tier, n=(5 if tier == "quick" else 60)), monitor=monitor, config="openssl")]
